@@ -197,6 +197,12 @@ func (e *testEnv) endpoints() []endpointCase {
 		{name: "remote-unix", target: "/app/page", remote: "@"}, {name: "remote-noport", target: "/app/page", remote: "127.0.0.1"},
 		{name: "remote-loopback", target: "/app/page", remote: "127.0.0.1:9"}, {name: "remote-v6-loopback", target: "/app/page", remote: "[::1]:9"},
 		{name: "authonly-unix", target: p + "/auth", remote: "@"},
+		// an untrusted peer CLAIMING a trusted address in every client-IP header in use (the harness judges trust by the peer address
+		// unless reverse-proxy mode is on, and then only by the configured header)
+		{name: "claimed-ip-all-headers", target: "/app/page", header: http.Header{"X-Real-Ip": {"10.0.0.9"}, "X-Forwarded-For": {"10.0.0.9"}, "X-Proxyuser-Ip": {"10.0.0.9"},
+			"X-Envoy-External-Address": {"10.0.0.9"}, "Cf-Connecting-Ip": {"10.0.0.9"}, "True-Client-Ip": {"10.0.0.9"}, "Forwarded": {"for=10.0.0.9"}}},
+		{name: "claimed-loopback", target: "/app/page", header: http.Header{"X-Real-Ip": {"127.0.0.1"}, "X-Forwarded-For": {"127.0.0.1, 10.0.0.9"}}},
+		{name: "claimed-ip-authonly", target: p + "/auth", header: http.Header{"X-Real-Ip": {"10.0.0.9"}, "X-Forwarded-For": {"192.168.3.4"}}},
 		// a header CLAIMING another method is not the method: no preflight exemption, no method-qualified rule
 		{name: "fake-preflight-xfm", target: "/app/page", header: http.Header{"X-Forwarded-Method": {"OPTIONS"}}},
 		{name: "fake-preflight-override", target: "/app/page", method: "POST", body: "a=b", header: http.Header{"X-Http-Method-Override": {"OPTIONS"}, "X-Method-Override": {"OPTIONS"}, "X-Original-Method": {"OPTIONS"}}},
@@ -300,6 +306,12 @@ func (e *testEnv) monitorC01(ep endpointCase, cr credential, v *respView, real s
 	}
 	if len(o.TrustedIPs) > 0 && ep.remote != "" && harnessRemoteTrusted(o.TrustedIPs, ep.remote) {
 		bypass = true
+	}
+	if len(o.TrustedIPs) > 0 && o.ReverseProxy && ep.header != nil {
+		// reverse-proxy mode: the CONFIGURED header (first address) speaks for the client
+		if v := ep.header.Get(o.RealClientIPHeader); v != "" && harnessRemoteTrusted(o.TrustedIPs, strings.TrimSpace(strings.Split(v, ",")[0])+":0") {
+			bypass = true
+		}
 	}
 	c.casen("c01|"+fmt.Sprintf("%+v", e.cfg)+"|"+ep.name+"|"+cr.kind, ep.name+"/"+cr.kind+" => "+real)
 	if served && !cr.valid && !bypass {
